@@ -246,7 +246,7 @@ C05Part(d) ==
        /\ Emit(MeanCase(fl, ty, "ci", ki, li, [rle |-> << <<V(3, 0), 1>>, <<V(5, 0), 1>>, <<V(9, 0), 1>>, <<V(4, 0), 1>> >>, order |-> "asc"], TRUE, "base") @@ [aux |-> TRUE])
 
 \* ---- C09: long merge histories on data whose sums round (judged by the exact-statistics judge) ----
-FoldStyles == <<"ci", "lfold1", "rfold1", "rfold1_assign", "lfold7", "rfold7", "tree">>
+FoldStyles == <<"ci", "lfold1", "rfold1", "rfold1_assign", "lfold7", "rfold7", "tree", "extend4">>
 FoldData(k, n) ==
     CASE k = 1 -> [rle |-> << <<V(-13421773, -27), n \div 2>>, <<V(-11184811, -25), n \div 4>>, <<V(-3, -3), n - (n \div 2) - (n \div 4)>> >>,
                    order |-> "interleave"]                                          \* all negative (~ -0.1, -0.33, -0.375)
